@@ -602,6 +602,18 @@ pub fn elem_receivers() -> BTreeMap<&'static str, ElemDesc> {
         data: Some(DataDesc::Data { variant: BodyLeaf::Recv("VR3"), field: BodyLeaf::Recv("FR5") }),
         ..elem("DI8", DeriveInput, vec!["a"], vec![f("p", opt(pm(4801))), f("m", pm(4802)).multiple()])
     });
+    add(ElemDesc {
+        has_ident: true,
+        forward: Forward::All,
+        attrs_field: Some(AttrsField::Plain),
+        ..elem("VR4", Variant, vec!["a"], vec![f("p", opt(pm(4901)))])
+    });
+    add(ElemDesc {
+        has_ident: true,
+        forward: Forward::Only(vec!["doc", "keep"]),
+        attrs_field: Some(AttrsField::With(4950)),
+        ..elem("TR3", TypeParam, vec!["a"], vec![f("q", pm(4951))])
+    });
     add(elem(
         "AT1",
         Attributes,
